@@ -142,3 +142,19 @@ seed('c10-k-guard-dropped', 'C10', [(GNAT, "if (nbhQueue.size() == k && (nodeDis
 seed('c10-sqrt-no-refresh', 'C10', [(SQRT, "            bool result = NearestNeighborsLinear<_T>::remove(data);\n            if (result)\n                updateCheckCount();", "            bool result = NearestNeighborsLinear<_T>::remove(data);")], 'R10e')
 seed('c10-updaterange-swapped', 'C10', [(GNAT, "                if (minRange_[i] > dist)\n                    minRange_[i] = dist;", "                if (minRange_[i] < dist)\n                    minRange_[i] = dist;")], 'R10g')
 seed('c10-n-rearranged', 'C10', [(GNAT, "if (nodeDist.second > nodeDist.first->maxRadius_ + dist ||\n                    nodeDist.second < nodeDist.first->minRadius_ - dist)", "if (nodeDist.second - dist > nodeDist.first->maxRadius_ ||\n                    nodeDist.second + dist < nodeDist.first->minRadius_)")], None)
+
+# ---- C09 -------------------------------------------------------------------------------------------------------
+PDS = 'src/ompl/base/src/PlannerDataStorage.cpp'
+PDSH = 'src/ompl/base/PlannerDataStorage.h'
+SSP = 'src/ompl/base/src/StateSpace.cpp'
+SST_ = 'src/ompl/base/src/StateStorage.cpp'
+PDATA = 'src/ompl/base/src/PlannerData.cpp'
+seed('c09-signature-test-removed', 'C09', [(PDS, "        if (h.signature != sig)\n        {\n            OMPL_ERROR(\"Failed to load PlannerData: StateSpace signature mismatch\");\n            return false;\n        }\n", "")], 'R09a')
+seed('c09-signature-inverted', 'C09', [(SST_, "        if (h.signature != sig)\n        {\n            OMPL_ERROR(\"State space signatures do not match\");", "        if (h.signature == sig)\n        {\n            OMPL_ERROR(\"State space signatures do not match\");")], 'R09a')
+seed('c09-deserialize-no-advance', 'C09', [(SSP, "        components_[i]->deserialize(cstate->components[i], reinterpret_cast<const char *>(serialization) + l);\n        l += components_[i]->getSerializationLength();", "        components_[i]->deserialize(cstate->components[i], reinterpret_cast<const char *>(serialization) + l);")], 'R09c')
+seed('c09-goal-to-standard', 'C09', [(PDSH, "                    else if (pd.isGoalVertex(i))\n                        vertexData.type_ = PlannerDataVertexData::GOAL;", "                    else if (pd.isGoalVertex(i))\n                        vertexData.type_ = PlannerDataVertexData::STANDARD;")], 'R09b')
+seed('c09-start-goal-collapsed', 'C09', [(PDSH, "                    if (pd.isStartVertex(i) && pd.isGoalVertex(i))\n                        vertexData.type_ = PlannerDataVertexData::START_AND_GOAL;\n                    else if (pd.isStartVertex(i))", "                    if (pd.isStartVertex(i))")], 'R09b')
+seed('c09-state-count-minus1', 'C09', [(SST_, "        h.state_count = states_.size();", "        h.state_count = states_.size() - 1;")], 'R09a')
+seed('c09-fromreals-reverse', 'C09', [(SSP, "        *getValueAddressAtLocation(destination, locations[i]) = reals[i];", "        *getValueAddressAtLocation(destination, locations[i]) = reals[reals.size() - 1 - i];")], 'R09d')
+seed('c09-goal-sort-wrong-list', 'C09', [(PDATA, "            std::sort(goalVertexIndices_.begin(), goalVertexIndices_.end());", "            std::sort(startVertexIndices_.begin(), startVertexIndices_.end());")], 'R09g')
+seed('c09-n-reader-switch', 'C09', [(PDSH, "                    if (vertexData.type_ == PlannerDataVertexData::START_AND_GOAL)\n                    {\n                        pd.addStartVertex(*v);\n                        pd.markGoalState(state);\n                    }\n                    else if (vertexData.type_ == PlannerDataVertexData::START)\n                        pd.addStartVertex(*v);\n                    else if (vertexData.type_ == PlannerDataVertexData::GOAL)\n                        pd.addGoalVertex(*v);\n                    else\n                        pd.addVertex(*v);", "                    switch (vertexData.type_)\n                    {\n                        case PlannerDataVertexData::START_AND_GOAL:\n                            pd.addStartVertex(*v);\n                            pd.markGoalState(state);\n                            break;\n                        case PlannerDataVertexData::START:\n                            pd.addStartVertex(*v);\n                            break;\n                        case PlannerDataVertexData::GOAL:\n                            pd.addGoalVertex(*v);\n                            break;\n                        default:\n                            pd.addVertex(*v);\n                    }")], None)
